@@ -50,6 +50,19 @@ pub fn c18_extra(chk: &Check, _tier: Tier, heavy: &std::sync::atomic::AtomicU64)
         engine::record(chk, &sys, &out, None);
         heavy.fetch_add(out.transitions + out.probes, Ordering::Relaxed);
     }
+    // time passing DURING a call: after every reading the scanner takes, the mock clock moves on by
+    // 1, 2 or 5 ticks (timeouts of 2 and 5 ticks). No output oracle here - only "no panic, no
+    // allocation" - so that code which reads the clock more than once per call is not judged for
+    // the instants it sees; what it must not do is fall over (e.g. subtract a later reading from an
+    // earlier deadline)
+    for (t, adv) in [(2u64, 1u64), (2, 2), (5, 2), (2, 5)] {
+        let mut sys = polling::PollSys::new("C18", 2, t, 1, &[1], false, polling::PReport { alloc: true, ..Default::default() });
+        sys.advance = adv;
+        sys.pauses = vec![(1 << 20) + 100];
+        let out = xs::explore(&sys, &lim);
+        engine::record(chk, &sys, &out, None);
+        heavy.fetch_add(out.transitions + out.probes, Ordering::Relaxed);
+    }
     let mut sys = iso::IsoSys::<helgoboss_midi::PollingParameterNumberMessageScanner>::new(1, 9, 2, false);
     sys.pid = "C18";
     let out = xs::explore(&sys, &lim);
